@@ -5,10 +5,10 @@ EXTENDS Hsaco
 
 \* stored amd_kernel_code_t values (genuine headers)
 H1 == [salt |-> 3, maj |-> 1, min |-> 1, kind |-> 1, gen |-> 8, mvmin |-> 0, mvstep |-> 3, entry |-> 256,
-       r1 |-> <<172, 132>>, r2 |-> <<0, 2448>>, fl |-> <<1, 0, 0, 1, 0, 0, 0, 0, 0, 0>>,
+       r1 |-> <<172, 132>>, r2 |-> <<0, 2448>>, fl |-> <<1, 0, 1, 0, 1, 0, 1, 0, 1, 0>>,
        priv |-> <<0, 16>>, lds |-> <<0, 1024>>, ka |-> <<0, 0, 0, 40>>, sgpr |-> 24, vgpr |-> 9]
 H2 == [salt |-> 41, maj |-> 1, min |-> 0, kind |-> 1, gen |-> 9, mvmin |-> 4, mvstep |-> 2, entry |-> 256,
-       r1 |-> <<1, 65535>>, r2 |-> <<43690, 21>>, fl |-> <<0, 1, 1, 0, 1, 1, 1, 1, 0, 1>>,
+       r1 |-> <<1, 65535>>, r2 |-> <<43690, 21>>, fl |-> <<1, 1, 0, 0, 1, 1, 0, 0, 1, 1>>,
        priv |-> <<2, 0>>, lds |-> <<1, 2>>, ka |-> <<0, 3, 1, 8>>, sgpr |-> 102, vgpr |-> 256]
 \* near misses: one field of the five-field signature is off (the bytes are instructions, not a header)
 Near == {[H1 EXCEPT !.maj = 2], [H1 EXCEPT !.min = 3], [H1 EXCEPT !.kind = 2], [H1 EXCEPT !.gen = 6],
@@ -18,7 +18,7 @@ Near == {[H1 EXCEPT !.maj = 2], [H1 EXCEPT !.min = 3], [H1 EXCEPT !.kind = 2], [
 S1 == [salt |-> 7, lds |-> <<0, 512>>, priv |-> <<0, 0>>, ka |-> <<0, 280>>, entry |-> Z64,
        r3 |-> <<0, 2>>, r1 |-> <<175, 65>>, r2 |-> <<0, 132>>, props |-> 8]
 S2 == [salt |-> 29, lds |-> <<2, 4>>, priv |-> <<0, 64>>, ka |-> <<0, 0>>, entry |-> <<65535, 65535, 65535, 61440>>,
-       r3 |-> <<0, 0>>, r1 |-> <<175, 965>>, r2 |-> <<9, 7071>>, props |-> 63]
+       r3 |-> <<0, 0>>, r1 |-> <<175, 7127>>, r2 |-> <<9, 7071>>, props |-> 63]
 
 K(nm, tag, kind, body, h, s, sg, vg) ==
   [name |-> nm, tag |-> tag, kind |-> kind, body |-> body, h |-> h, s |-> s, sg |-> sg, vg |-> vg]
@@ -26,7 +26,7 @@ K(nm, tag, kind, body, h, s, sg, vg) ==
 KernelsFor(nm, tag) ==
   {K(nm, tag, "v3", "plain", H1, S1, {}, {}), K(nm, tag, "v3", "plain", H2, S1, {}, {}),
    K(nm, tag, "v5", "plain", H1, S1, {}, {}), K(nm, tag, "v5", "plain", H1, S1, {4}, {3}),
-   K(nm, tag, "v5", "plain", H1, S2, {40}, {30}), K(nm, tag, "v5", "mimic", H1, S2, {}, {13}),
+   K(nm, tag, "v5", "plain", H1, S2, {40}, {120}), K(nm, tag, "v5", "mimic", H1, S2, {}, {13}),
    K(nm, tag, "v5", "mimic", H2, S1, {70}, {}),
    K(nm, tag, "raw", "plain", H1, S1, {}, {}), K(nm, tag, "raw", "short", H1, S1, {}, {})}
 NearFor(nm, tag) == {K(nm, tag, "raw", "mimic", h, S1, {}, {}) : h \in Near}
@@ -43,8 +43,9 @@ KNoise == {Prep(k) : k \in {K("ka", 1, "v3", "plain", H1, S1, {}, {}), K("ka", 1
                              K("ka", 1, "raw", "mimic", [H1 EXCEPT !.entry = 0], S1, {}, {})}}
 KOne == {Prep(k) : k \in KernelsFor("ka", 1) \cup NearFor("ka", 1)}
 KMid == {Prep(k) : k \in KernelsFor("ka", 1) \cup KernelsFor("kb", 2) \cup NearFor("ka", 1)}
-KBig == {Prep(k) : k \in KernelsFor("ka", 1) \cup FewFor("kb", 2) \cup FewFor("kc", 3) \cup NearFor("kb", 2)
-                         \cup {K("ka", 1, "v5", "plain", H1, S1, {4, 40}, {3, 30})}}
+KThree == {Prep(k) : k \in FewFor("ka", 1) \cup FewFor("kb", 2) \cup FewFor("kc", 3)
+                           \cup {K("ka", 1, "v5", "plain", H1, S1, {4, 40}, {3, 30}),
+                                 K("kb", 2, "raw", "mimic", [H1 EXCEPT !.gen = 6], S1, {}, {})}}
 
 LRel == [names |-> <<".text", ".rodata">>, addrs |-> <<Z64, Z64>>]
 LDyn == [names |-> <<".note", ".rodata", ".text", ".data">>,
